@@ -27,6 +27,7 @@ structure Decl where
   lowerName : Str         -- `decl.lower_name`
   value : Str             -- `tinycss2.serialize(decl.value)` (not stripped)
   important : Bool
+  comments : Str := []    -- the comment tokens of `decl.value`, serialised and concatenated
   deriving DecidableEq, Repr
 
 /-- an element of `parse_declaration_list(content, skip_whitespace=False, skip_comments=False)` -/
@@ -212,8 +213,9 @@ def lastDecl (items : List Item) (n : Str) : Option (Nat × Decl) :=
     | .other _ _ :: r, i, acc => go r (i + 1) acc
   go items 0 none
 
+/-- `update_decl_value`: the new value tokens, then the comments the old value contained -/
 def setDeclValue (items : List Item) (idx : Nat) (v : Str) : List Item :=
-  items.mapIdx fun i it => if i = idx then (match it with | .decl d => .decl { d with value := v } | o => o) else it
+  items.mapIdx fun i it => if i = idx then (match it with | .decl d => .decl { d with value := v ++ d.comments } | o => o) else it
 
 def itemsSerialisable (items : List Item) : Bool :=
   items.all fun it => match it with | .other _ ok => ok | .decl _ => true
